@@ -88,6 +88,10 @@ var selfMutants = []selfMutant{
 	{Rule: "R-BOUNDS", File: "strconv/float.go", Old: "	} else if -22 <= exp && exp < 0 { // int / 10^k\n		return f / float64pow10[-exp], i\n	}\n	if f == 0.0 {", New: "	} else if -23 <= exp && exp < 0 { // int / 10^k\n		return f / float64pow10[-exp], i\n	}\n	if f == 0.0 {", Props: []string{"C14"}, Why: "power-of-ten table indexed at 23"},
 	{Rule: "R-BOUNDS", File: "strconv/int.go", Old: "	for i < len(b) {\n		c := b[i]\n		if '0' <= c && c <= '9' {\n			if uint64(-math.MinInt64)", New: "	for i <= len(b) {\n		c := b[i]\n		if '0' <= c && c <= '9' {\n			if uint64(-math.MinInt64)", Props: []string{"C14"}, Why: "ParseInt reads past the end"},
 	{Rule: "R-BOUNDS", File: "position.go", Old: "		if col <= limit-offset {", New: "		if col < offset {", Props: []string{"C15"}, Why: "context window may start before the line"},
+	{Rule: "R-BOUNDS", File: "js/ast.go", Old: "	} else if len(ast.List) == 0 {\n		return nil\n	}\n	exprStmt, ok := ast.List[0].(*ExprStmt)", New: "	}\n	exprStmt, ok := ast.List[0].(*ExprStmt)", Props: []string{"C01"}, Why: "AST.JSON indexes an empty statement list"},
+	{Rule: "R-BOUNDS", File: "binary.go", Old: "	data := r.ReadBytes(2)\n	if len(data) < 2 {", New: "	data := r.ReadBytes(2)\n	if len(data) < 1 {", Props: []string{"C19"}, Why: "ReadUint16 indexes the second byte of a short read"},
+	{Rule: "R-BOUNDS", File: "js/walk.go", Old: "	case *BlockStmt:\n		if n.List != nil {\n			for i := 0; i < len(n.List); i++ {", New: "	case *BlockStmt:\n		if n.List != nil {\n			for i := 0; i <= len(n.List); i++ {", Props: []string{"C18", "C01"}, Why: "Walk indexes one past the statement list"},
+	{Rule: "R-BOUNDS", File: "js/ast.go", Old: "	if 0 < len(n.List) && n.List[len(n.List)-1].Value == nil {\n		w.Write([]byte(\",\"))", New: "	if n.List[len(n.List)-1].Value == nil {\n		w.Write([]byte(\",\"))", Props: []string{"C05", "C01"}, Why: "ArrayExpr.JS indexes the last element of an empty array literal"},
 	// engine rules
 	{Rule: "R-CURSOR", File: "css/lex.go", Only: "css", Old: "		if c == 0 && l.r.Err() != nil {\n			break\n		} else if c == '\\n' || c == '\\r' || c == '\\f' {", New: "		if c == '\\n' || c == '\\r' || c == '\\f' {", Why: "string scanner no longer stops at the end of input"},
 	{Rule: "R-CURSOR", File: "html/lex.go", Only: "html", Old: "			l.text = l.r.Lexeme()[2:]\n			l.r.Move(1)\n			return l.r.Shift()", New: "			l.text = l.r.Lexeme()[3:]\n			l.r.Move(1)\n			return l.r.Shift()", Why: "comment text sliced beyond a 2-byte token"},
